@@ -55,4 +55,12 @@ func init() {
 	registerGoLite(glGroup{id: "golitec16", out: "GoLiteC16.v", pkgDir: "split-car-fetcher",
 		funcs:   []glFunc{{recv: "MultiReaderAt", name: "ReadAt"}},
 		externs: []string{"io.ReaderAt.ReadAt:out0"}, hoist: true})
+	registerGoLite(glGroup{id: "golitec13", out: "GoLiteC13.v", pkgDir: "compactindexsized",
+		funcs: []glFunc{
+			{name: "uintLe"},
+			{recv: "BucketDescriptor", name: "unmarshalEntry"},
+			{recv: "Bucket", name: "loadEntry"},
+			{name: "bucketOffset"},
+		},
+		externs: []string{"io.SectionReader.ReadAt:out0", "io.ReaderAt.ReadAt:out0"}, hoist: true})
 }
